@@ -140,8 +140,17 @@ def readCfg (kv : List (String × String)) : Cfg :=
   { fusedev := getD kv "t" == "fusedev", cap := getNatD kv "cap",
     minor := getNatD kv "pre_minor" 33, hasVuReq := getNatD kv "vu" == 1, pagesize := 4096 }
 
+def runNotify (kv : List (String × String)) : String :=
+  let cap := getNatD kv "cap"
+  let (o, r) := match getD kv "notify" with
+    | "entry" => notifyInvalEntry cap (getNatD kv "parent") ((unhex (getD kv "name")).getD [])
+    | "inode" => notifyInvalInode cap (getNatD kv "ino") (getNatD kv "off") (getNatD kv "len")
+    | _ => notifyResend cap
+  "sys=" ++ ",".intercalate (o.sys.map hex) ++ " ret=" ++ showRet r
+
 def runLine (line : String) (async : Bool) : String :=
   let kv := tokens line
+  if (get kv "notify").isSome then runNotify kv else
   match unhex (getD kv "req") with
   | none => "bad-case"
   | some req =>
